@@ -185,6 +185,36 @@ def modules_step(sym, pre, uid_i, variant, arch, rpms_kind):
     sym.check("filed-exactly-there", m.modules == expected)
 
 
+def modules_shared_list(sym, third_cell):
+    """the caller passes the same list object to several adds: every entry still only changes when it is addressed"""
+    m = Modules()
+    r1 = sym.str("r1", 3)
+    r2 = sym.str("r2", 3)
+    shared = [r1]
+    uid = "ruby:2.5:20180123:c0ffee"
+    cells = [("Server", "x86_64"), ("Client", "s390x")]
+    m.add(cells[0][0], cells[0][1], uid, "tag", "a/m.yaml", "binary", shared)
+    m.add(cells[1][0], cells[1][1], uid, "tag", "b/m.yaml", "binary", shared)
+    v, a = cells[third_cell]
+    m.add(v, a, uid, "tag", "c/m.yaml", "debug", [r2])
+    sym.cover("called")
+    other = cells[1 - third_cell]
+    sym.check("addressed-entry-extended", m.modules[v][a][uid]["rpms"] == [r1, r2])
+    sym.check("other-entry-untouched", m.modules[other[0]][other[1]][uid]["rpms"] == [r1])
+    sym.check("callers-list-untouched", shared == [r1])
+
+
+def extra_shared_dict(sym):
+    """two extra files recorded with the caller's checksum dict: a later add does not change an earlier entry"""
+    ef = ExtraFiles()
+    cs = {"md5": sym.str("md5", 3)}
+    ef.add("Server", "x86_64", "GPL", 1, cs)
+    ef.add("Server", "x86_64", "EULA", 2, {"md5": "zz"})
+    sym.cover("called")
+    sym.check("first-entry-kept", ef.extra_files["Server"]["x86_64"][0] == {"file": "GPL", "size": 1, "checksums": cs})
+    sym.check("second-entry", ef.extra_files["Server"]["x86_64"][1] == {"file": "EULA", "size": 2, "checksums": {"md5": "zz"}})
+
+
 def extra_step(sym, pre, variant, arch, checksums_kind):
     ef = ExtraFiles()
     if pre >= 1:
@@ -315,13 +345,16 @@ def jobs(tier, seed):
         out.append({"harness": "relative_inside", "params": {"n": m, "slashes": sl}})
         out.append({"harness": "relative_outside", "params": {"n": m, "slashes": sl}})
     out.append({"harness": "dump_for_tree", "params": {"n": 5 if big else 3}})
+    for tc in (0, 1):
+        out.append({"harness": "modules_shared_list", "params": {"third_cell": tc}})
+    out.append({"harness": "extra_shared_dict", "params": {}})
     return out
 
 
 META = {
     "expected_covers": {"rpms_step": ["called", "accepted"], "module_uid": ["parsed"], "module_uid_refused": ["called"],
                         "modules_step": ["called", "accepted"], "extra_step": ["called", "accepted"],
-                        "relative_inside": ["called"], "relative_outside": ["called"], "dump_for_tree": ["dumped"]},
+                        "modules_shared_list": ["called"], "extra_shared_dict": ["called"], "relative_inside": ["called"], "relative_outside": ["called"], "dump_for_tree": ["dumped"]},
     "assumptions": [
         "one-step claims from pre-states reached by 0-2 real add calls; NEVRAs, module UIDs, variants are dict keys and come from a concrete pool "
         "(including invalid shapes); path, sigkey, category, koji tag, modulemd path, sizes, checksum values are symbolic (parsing of arbitrary NEVRA strings is C13)",
